@@ -323,11 +323,12 @@ func check(prop, tier string, seed uint64) int {
 	stop := false
 	sampleGiven := map[int]bool{}
 	isolated := map[int]bool{}
+	var quickDeadline time.Time // bounds the isolated re-search
 
 	takeChunk := func() (int, uint64, uint64, bool) {
 		mu.Lock()
 		defer mu.Unlock()
-		if stop || (tier == "thorough" && time.Now().After(deadline)) {
+		if stop || (tier == "thorough" && time.Now().After(deadline)) || (!quickDeadline.IsZero() && time.Now().After(quickDeadline)) {
 			return 0, 0, 0, false
 		}
 		best := -1
@@ -359,78 +360,81 @@ func check(prop, tier string, seed uint64) int {
 		return best, from, to, true
 	}
 
-	var wg sync.WaitGroup
-	for w := 0; w < nworkers; w++ {
-		wg.Add(1)
-		go func() {
-			defer wg.Done()
-			for {
-				li, from, to, ok := takeChunk()
-				if !ok {
-					return
-				}
-				lc := lcs[li]
-				args := append(workerArgs(prop, tier, lc, seed), "-from", fmt.Sprint(from), "-to", fmt.Sprint(to))
-				mu.Lock()
-				if !sampleGiven[li] {
-					sampleGiven[li] = true
-					args = append(args, "-sample", "1")
-				}
-				mu.Unlock()
-				mu.Lock()
-				iso := isolated[li]
-				mu.Unlock()
-				if iso {
-					args = append(args, "-isolate")
-				}
-				wo := runWorker(bt.bins[lc.Race], 30*time.Minute, args...)
-				if wo.err != nil {
-					infra("%v\n%s", wo.err, wo.stderr)
-				}
-				if wo.exit == 77 {
-					// Runs in one process depend on each other (the library keeps
-					// goroutines/state at package level): redo the unfinished part
-					// of the chunk, and every later chunk of this lane, one
-					// process per run.
-					a.add(lc.Name, wo)
-					var at uint64 = from
-					for _, l := range wo.lines {
-						if l.T == "start" {
-							at = l.Run
+	dispatch := func() {
+		var wg sync.WaitGroup
+		for w := 0; w < nworkers; w++ {
+			wg.Add(1)
+			go func() {
+				defer wg.Done()
+				for {
+					li, from, to, ok := takeChunk()
+					if !ok {
+						return
+					}
+					lc := lcs[li]
+					args := append(workerArgs(prop, tier, lc, seed), "-from", fmt.Sprint(from), "-to", fmt.Sprint(to))
+					mu.Lock()
+					if !sampleGiven[li] {
+						sampleGiven[li] = true
+						args = append(args, "-sample", "1")
+					}
+					mu.Unlock()
+					mu.Lock()
+					iso := isolated[li]
+					mu.Unlock()
+					if iso {
+						args = append(args, "-isolate")
+					}
+					wo := runWorker(bt.bins[lc.Race], 30*time.Minute, args...)
+					if wo.err != nil {
+						infra("%v\n%s", wo.err, wo.stderr)
+					}
+					if wo.exit == 77 {
+						// Runs in one process depend on each other (the library keeps
+						// goroutines/state at package level): redo the unfinished part
+						// of the chunk, and every later chunk of this lane, one
+						// process per run.
+						a.add(lc.Name, wo)
+						var at uint64 = from
+						for _, l := range wo.lines {
+							if l.T == "start" {
+								at = l.Run
+							}
 						}
+						mu.Lock()
+						isolated[li] = true
+						states[li].retry = append(states[li].retry, [2]uint64{at, to})
+						mu.Unlock()
+						continue
+					}
+					if wo.exit != 0 && wo.exit != 66 {
+						infra("worker exited %d (lane %s runs %d..%d)\n%s", wo.exit, lc.Name, from, to, wo.stderr)
+					}
+					a.add(lc.Name, wo)
+					f := firstViolation(lc, wo)
+					if f == nil && (wo.exit == 66 || strings.Contains(wo.stderr, "WARNING: DATA RACE")) {
+						infra("race detector report outside any attributed run (lane %s runs %d..%d)\n%s", lc.Name, from, to, wo.stderr)
+					}
+					if f == nil {
+						continue
 					}
 					mu.Lock()
-					isolated[li] = true
-					states[li].retry = append(states[li].retry, [2]uint64{at, to})
-					mu.Unlock()
-					continue
-				}
-				if wo.exit != 0 && wo.exit != 66 {
-					infra("worker exited %d (lane %s runs %d..%d)\n%s", wo.exit, lc.Name, from, to, wo.stderr)
-				}
-				a.add(lc.Name, wo)
-				f := firstViolation(lc, wo)
-				if f == nil && (wo.exit == 66 || strings.Contains(wo.stderr, "WARNING: DATA RACE")) {
-					infra("race detector report outside any attributed run (lane %s runs %d..%d)\n%s", lc.Name, from, to, wo.stderr)
-				}
-				if f == nil {
-					continue
-				}
-				mu.Lock()
-				if k := known.match(prop, f.viol); k >= 0 {
-					knownSeen[k]++
-					if f.run+1 < to {
-						states[li].retry = append(states[li].retry, [2]uint64{f.run + 1, to})
+					if k := known.match(prop, f.viol); k >= 0 {
+						knownSeen[k]++
+						if f.run+1 < to {
+							states[li].retry = append(states[li].retry, [2]uint64{f.run + 1, to})
+						}
+					} else {
+						finds = append(finds, f)
+						stop = true
 					}
-				} else {
-					finds = append(finds, f)
-					stop = true
+					mu.Unlock()
 				}
-				mu.Unlock()
-			}
-		}()
+			}()
+		}
+		wg.Wait()
 	}
-	wg.Wait()
+	dispatch()
 
 	for k, n := range knownSeen {
 		fmt.Printf("KNOWN-FINDING: property=%s %s (seen in %d runs)\n", prop, known.entries[k].What, n)
@@ -446,7 +450,47 @@ func check(prop, tier string, seed uint64) int {
 		})
 		f := finds[0]
 		fmt.Printf("violation in lane %s run %d: [%s] %s\n", f.lane.Name, f.run, f.viol.Class, f.viol.Detail)
-		report = minimiseAndReport(bt, prop, tier, seed, f)
+		var reproduced bool
+		report, reproduced = minimiseAndReport(bt, prop, tier, seed, f)
+		if !reproduced {
+			// The run violated the property inside its worker process but its
+			// tape does not in a fresh one: runs in one process depend on each
+			// other through state the library keeps at package level. Search
+			// again with every run in a process of its own; whatever is found
+			// there reproduces by construction.
+			fmt.Printf("the violation of run %d does not reproduce from its tape in a fresh process (package-level state carried over between runs of one worker?): searching again with one process per run\n", f.run)
+			mu.Lock()
+			finds = nil
+			stop = false
+			for li := range lcs {
+				isolated[li] = true
+				states[li].next = lcs[li].Offset
+				states[li].retry = nil
+				states[li].dispatched = 0
+			}
+			mu.Unlock()
+			isoDeadline := time.Now().Add(time.Duration(envInt("VERIF_ISOLATED_S", 120)) * time.Second)
+			if tier == "thorough" && isoDeadline.After(deadline) {
+				deadline = isoDeadline
+			}
+			quickDeadline = isoDeadline
+			dispatch()
+			if len(finds) == 0 {
+				infra("nondeterministic replay: lane %s run %d reported [%s] %s, its tape does not reproduce it in three fresh processes, and a search with one process per run found nothing", f.lane.Name, f.run, f.viol.Class, f.viol.Detail)
+			}
+			sort.Slice(finds, func(i, j int) bool {
+				if finds[i].lane.Name != finds[j].lane.Name {
+					return finds[i].lane.Name < finds[j].lane.Name
+				}
+				return finds[i].run < finds[j].run
+			})
+			f = finds[0]
+			fmt.Printf("violation in lane %s run %d (isolated): [%s] %s\n", f.lane.Name, f.run, f.viol.Class, f.viol.Detail)
+			report, reproduced = minimiseAndReport(bt, prop, tier, seed, f)
+			if !reproduced {
+				infra("nondeterministic replay: lane %s run %d reported [%s] in a process of its own, yet its tape does not reproduce it", f.lane.Name, f.run, f.viol.Class)
+			}
+		}
 		code = 1
 	}
 	isoNames := []string{}
